@@ -11,22 +11,25 @@ LEVEL = "proof"
 META = {
     "level": "proof",
     "technique": "Coq proofs over list-level ports of parallel.h for all legal TBB schedules + schedule-simulator / real-TBB correspondence with the extracted model + std:: oracle",
-    "text": "Coq theorems (Properties_C13): stable_sort_spec (parallel merge sort = stable insertion sort for every strict weak order, every threshold >= 2, "
-            "every input), merge_rec_spec, scan_protocol_spec/scan_spec/inclusive_scan_spec/copy_if_spec/copy_if_scan_body_spec/remove_if_spec (the "
-            "pre_scan/final_scan/reverse_join/assign protocol under ANY schedule accepted by Sched.legal_scan equals the sequential algorithm, for an "
-            "associative f with two-sided identity), reduce_spec (forced hypothesis: init is a right identity; refuted without it: "
-            "reduce_refuted_without_identity), all_of_spec, for_each_family (write-once bodies, any split tree and leaf order), "
-            "reduce_sites_pass_identities (generated table of in-tree callers), unique_refuted_across_chunks. Tie: every template instantiated with "
-            "ExecutionPolicy::Par is run under real TBB (1..16 threads, real thresholds and a threshold-substituted copy of parallel.h) and under the "
-            "seeded schedule simulator; results are compared with std:: in-process, the simulator's logged schedules must pass the extracted legal_* "
-            "predicates and the extracted model run under the logged schedule must reproduce the output; DisjointSets/HashTableD are hammered by 2-3 real "
-            "threads and compared with a sequential reference.",
+    "text": "Coq theorems (Properties_C13), all for every input and every schedule accepted by the legality predicates of Par/Sched.v: stable_sort_spec "
+            "(parallel merge sort = stable insertion sort for every strict weak order and threshold >= 2), merge_rec_spec, radix_sort_spec (the radix path "
+            "over keys of k bytes: is_sorted shortcut, stable counting pass per byte with canSkip, SortedRange join, any reduction tree) and radix_pass_spec, "
+            "scan_protocol_spec / scan_spec / inclusive_scan_spec / copy_if_spec / copy_if_scan_body_spec / remove_if_spec (pre_scan/final_scan/"
+            "reverse_join/assign protocol = the sequential algorithm for associative f with two-sided identity), unique_spec (every chunk size >= 1), "
+            "reduce_spec (every init, f associative), all_of_spec, for_each_family (write-once bodies, any split tree and leaf order), "
+            "reduce_sites_pass_identities (generated table), uf_cas_step_preserves_order (any interleaving of the CAS steps keeps the (rank,id) parent "
+            "order), uf_partition_partial (the one-thread port yields exactly the equivalence closure), hash_insert_partial (claim steps keep the probe "
+            "invariant; unique slot; found). Tie: every template instantiated with ExecutionPolicy::Par runs under real TBB (1..16 threads, source "
+            "thresholds and a threshold-substituted copy of parallel.h) and under the seeded schedule simulator; results are compared with std:: "
+            "in-process; every logged schedule must pass the extracted legal_* predicates and the extracted model run under it must reproduce the "
+            "output; DisjointSets/HashTableD are hammered by 1-3 real threads: one-thread runs must equal the extracted models word for word, "
+            "concurrent runs partition-for-partition / key-set and probe invariant.",
     "note": "Trusted: Coq kernel, extraction, std:: algorithms modelled by their specification (merge, stable_sort of a block, lower/upper_bound on sorted "
-            "runs, reduce on a block), list-level abstraction of the buffer index arithmetic (a buffer-level merge sort model is executed in the "
-            "correspondence but not proved), the informal argument that Sched.legal_* contain every behaviour TBB documents. Not proved: the radix path "
-            "(stable counting-pass model executed and compared only), unique() beyond the refutation, the lock-free containers (exercised with real "
-            "threads only; interleaving proof not closed). Findings on the pinned tree: reduce-nonidentity-init, unique-chunk-boundary-duplicate, "
-            "radix-signed-negative.",
+            "runs, reduce on a block), list-level abstraction of buffer index arithmetic (a two-buffer merge sort model is executed in the correspondence "
+            "but not proved; counting passes modelled as stable partitions), the informal argument that Sched.legal_* contain every behaviour TBB documents. "
+            "Partial: union-find final partition and hash table are proved for the sequential port / per CAS step only (concurrent final partition, "
+            "values, Full() race: real threads only); termination of findImpl from the order invariant is not proved (model returns None on fuel "
+            "exhaustion; never observed). Three defects found by this check on the pinned tree were fixed upstream of it (fc899df2, 8dafdd9e, 1f3be2f4).",
 }
 
 SMALL_THR, SMALL_MAXBUF = 4, 8
@@ -164,7 +167,7 @@ def run(cx):
         "std::merge, std::stable_sort (on a block), std::lower_bound/upper_bound (on sorted runs), std::copy, std::reduce (on a block, associative op) are modelled by their specification",
         "list-level model: buffer index arithmetic of mergeRec/mergeSortRec is abstracted (a two-buffer model msort_buf is executed in the correspondence, not proved)",
         "Sched.legal_for/legal_reduce/legal_scan/legal_invoke are argued (not proved) to contain every behaviour TBB documents; every schedule the simulator produces is checked against them",
-        "radix sort path, unique() and the lock-free containers are covered by the correspondence/real-thread runs, not by a closed proof (see META note)",
+        "lock-free containers: per-CAS-step invariants for any interleaving and the sequential port are proved; the concurrent final partition / found-with-value statement is exercised with real threads only",
         "integer inputs only; schedule-dependent floating point results belong to C04",
     ]
     src, m1, m2, thr, maxbuf = read_consts()
@@ -189,8 +192,6 @@ def run(cx):
     if not okc:
         return
     small_h = write_small_header(src, m1, m2)
-    mls = vp.coq_extract("ExtractC13", ["c13_model.ml"])
-    drv = vp.ocaml_build("c13_driver", mls + [os.path.join(vp.ROOT, "extract/c13_driver.ml")])
     exes, errs = {}, []
 
     def build(tag, name, variant, extra):
@@ -203,6 +204,9 @@ def run(cx):
         ("sim", "c13_par", "sim", small), ("par_small", "c13_par", "par", small),
         ("par_real", "c13_par", "par", []), ("uf", "c13_uf", "par", []))]
     for t in ths: t.start()
+    # the extraction and the OCaml build run while the four harness variants compile
+    mls = vp.coq_extract("ExtractC13", ["c13_model.ml"])
+    drv = vp.ocaml_build("c13_driver", mls + [os.path.join(vp.ROOT, "extract/c13_driver.ml")])
     for t in ths: t.join()
     if errs:
         raise vp.BuildError(errs[0])
@@ -293,8 +297,7 @@ def run(cx):
                     nontriv += 1
     for p in probes:
         c = bycase.get(str(p["id"]))
-        cx.cov.setdefault("finding_probes", []).append({"key": p["probe"], "reproduced": bool(c) and c["impl"] != "" and
-                                                        any(v[0] == p["probe"] for v in cx.violations)})
+        cx.cov.setdefault("regression_probes", []).append({"key": p["probe"], "ran": bool(c), "regressed": any(v[0] == p["probe"] for v in cx.violations)})
     # model: sim cases under their logged schedule, par_small cases under the trivial schedule
     inp = ["PARAMS %d %d" % (SMALL_THR, SMALL_MAXBUF)]
     for c in sim_cases + pars_cases:
@@ -333,7 +336,7 @@ def run(cx):
                          (c["tag"], c["impl"][:120], rest[:120], c["line"][:160]))
     stats["model_mismatches"] = nm
     st.mark('model run+compare')
-    containers(cx, exes["uf"], rng, stats)
+    containers(cx, exes["uf"], drv, rng, stats)
     st.mark('containers')
     cx.cov.update({"evaluations": stats["sim"] + stats["par_small"] + stats["par_real"] + stats.get("uf", 0) + stats.get("ht", 0),
                    "distinct_nontrivial": nontriv,
@@ -344,13 +347,16 @@ def run(cx):
             cx.sample({"case": c["line"][:200], "schedule": c["sched"][:3], "impl": c["impl"][:160], "model": mres.get(str(c["id"]), ("", ""))[1][:160]})
 
 
-def containers(cx, exe, rng, stats):
+def containers(cx, exe, drv, rng, stats):
+    """real threads on DisjointSets / HashTableD against a sequential reference in the harness and the
+    extracted sequential models (Par/Containers.v): one-thread runs must give the model's words exactly"""
     lines, meta = [], {}
     cid = 0
-    for _ in range(cx.pick(40, 3000)):
+    ncases = cx.pick(40, 3000)
+    for k in range(ncases):
         cid += 1
         n = rng.choice([2, 3, 4, 6, 10, 40])
-        th = rng.choice([2, 3])
+        th = 1 if k % 4 == 0 else rng.choice([2, 3])
         m = rng.choice([2, 4, 8, 3 * n])
         pairs = []
         for i in range(m):
@@ -358,9 +364,9 @@ def containers(cx, exe, rng, stats):
             pairs += [(a, b)]
             if rng.random() < 0.5 and len(pairs) < m: pairs += [(b, a)]     # the mirrored union in another thread
         pairs = pairs[:m]
-        rounds = 300 if n <= 6 else 40
+        rounds = 1 if th == 1 else (300 if n <= 6 else 40)
         lines.append("UF %d %d %d %d %d %s" % (cid, n, th, rounds, len(pairs), " ".join("%d %d" % p for p in pairs)))
-        meta[str(cid)] = lines[-1]
+        meta[str(cid)] = dict(line=lines[-1], n=n, th=th, pairs=pairs)
     # mirrored unions racing in two threads: (2k,2k+1) in thread 0 against (2k+1,2k) in thread 1
     for _ in range(cx.pick(12, 200)):
         cid += 1
@@ -370,15 +376,16 @@ def containers(cx, exe, rng, stats):
         for k in ks:
             pairs += [(2 * k, 2 * k + 1), (2 * k + 1, 2 * k)]
         lines.append("UF %d %d 2 400 %d %s" % (cid, n, len(pairs), " ".join("%d %d" % p for p in pairs)))
-        meta[str(cid)] = lines[-1]
-    for _ in range(cx.pick(60, 1500)):
+        meta[str(cid)] = dict(line=lines[-1], n=n, th=2, pairs=pairs)
+    for k in range(cx.pick(60, 1500)):
         cid += 1
         lg = rng.choice([2, 3, 5, 8])
         m = rng.choice([1, 3, (1 << lg) // 2, 1 << lg, 3 << lg])
         univ = rng.choice([4, 1 << lg, 1 << 20])
         ks = [rng.randrange(univ) * rng.choice([1, 1 << lg]) for _ in range(m)]
-        lines.append("HT %d %d %d %d %s" % (cid, lg, rng.choice([2, 3]), len(ks), " ".join(map(str, ks))))
-        meta[str(cid)] = lines[-1]
+        th = 1 if k % 3 == 0 else rng.choice([2, 3])
+        lines.append("HT %d %d %d %d %s" % (cid, lg, th, len(ks), " ".join(map(str, ks))))
+        meta[str(cid)] = dict(line=lines[-1], th=th, keys=ks, size=1 << lg)
     kl = lambda l: l.split()[1]
     ko = lambda l: l.split()[1] if l[:2] in ("U ", "H ") else None
     out, crashes = vp.run_cases(exe, lines, kl, ko, timeout=900)
@@ -386,16 +393,83 @@ def containers(cx, exe, rng, stats):
         key = "unionfind-hang-or-crash" if cl.startswith("UF") else "hashtable-hang-or-crash"
         cx.violation(key, "concurrent %s did not return (rc=%s; parent-pointer cycle or crash)" % ("unite/find" if cl.startswith("UF") else "Insert", rc),
                      {"case": cl[:1000], "note": "replay: feed this line to harness c13_uf (real threads; repeat if the race does not fire)"})
+    bad = set()
     for l in out.splitlines():
         t = l.split()
+        mt = meta.get(t[1], {}) if len(t) > 1 else {}
         if t[0] == "U":
             stats["uf"] = stats.get("uf", 0) + 1
+            mt["labels"] = t[t.index("LABELS") + 1:]
             if t[2] != "ok=1":
+                bad.add(t[1])
                 cx.violation("unionfind-partition-differs" if "ORD=1" in l else "unionfind-rank-order-broken",
                              "concurrent unite/find result differs from the sequential partition or breaks the (rank,id) order: " + l[:200],
-                             {"case": meta.get(t[1], "")[:1000], "output": l[:400]})
+                             {"case": mt.get("line", "")[:1000], "output": l[:400]})
+        elif t[0] == "A":
+            mt["words"] = t[2:]
+        elif t[0] == "HH":
+            mt["hashes"] = t[3:]
+        elif t[0] == "HA":
+            mt["arr"] = t[2:]
         elif t[0] == "H":
             stats["ht"] = stats.get("ht", 0) + 1
+            mt["full"] = "full=1" in l
             if t[2] != "ok=1":
+                bad.add(t[1])
                 cx.violation("hashtable-insert-lost-or-duplicated", "concurrent Insert: key missing, duplicated or wrong value: " + l,
-                             {"case": meta.get(t[1], "")[:1000], "output": l})
+                             {"case": mt.get("line", "")[:1000], "output": l})
+    # extracted sequential models
+    minp = []
+    for k, mt in meta.items():
+        if "pairs" in mt and "words" in mt:
+            minp.append("UFM %s %d %d %s" % (k, mt["n"], len(mt["pairs"]), " ".join("%d %d" % p for p in mt["pairs"])))
+        elif "keys" in mt and "arr" in mt and "hashes" in mt:
+            idx = {kk: i for i, kk in enumerate(sorted(set(mt["keys"])))}
+            mt["idx"] = idx
+            arr = ["-1" if v == "-1" else str(idx.get(int(v), 999999)) for v in mt["arr"]]
+            minp.append("HTM %s %d 1 %d %s ARR %s" % (k, mt["size"], len(mt["keys"]),
+                                                      " ".join("%d %s" % (idx[kk], hh) for kk, hh in zip(mt["keys"], mt["hashes"])), " ".join(arr)))
+            mt["arr_idx"] = arr
+    rc, mout, merr = vp.sh2([drv], input="\n".join(minp) + "\n", timeout=900)
+    if rc != 0:
+        cx.broke("corr:C13/container-model-driver", "model driver exited %d: %s" % (rc, merr[-300:]))
+    nm = {"uf_words_exact": 0, "uf_partition": 0, "ht_array_exact": 0, "ht_invariant": 0, "ht_keyset": 0}
+    for l in mout.splitlines():
+        t = l.split()
+        mt = meta.get(t[1])
+        if mt is None or t[1] in bad: continue
+        if t[0] == "A":
+            words = t[2:]
+            if words == ["NONE"]:
+                cx.broke("corr:C13/unionfind#case %s" % t[1], "sequential union-find model ran out of fuel: " + mt["line"][:200]); continue
+            par = [int(x) for x in words[1::2]]
+            def root(i):
+                while par[i] != i: i = par[i]
+                return i
+            roots = [root(i) for i in range(mt["n"])]
+            lab = [str(min(j for j in range(mt["n"]) if roots[j] == roots[i])) for i in range(mt["n"])]
+            nm["uf_partition"] += 1
+            if lab != mt.get("labels"):
+                cx.broke("corr:C13/unionfind-partition#case %s" % t[1], "model partition %s differs from implementation %s: %s" % (lab[:20], mt.get("labels", [])[:20], mt["line"][:200]))
+            if mt["th"] == 1:
+                nm["uf_words_exact"] += 1
+                if words != mt["words"]:
+                    cx.broke("corr:C13/unionfind-words#case %s" % t[1], "one-thread run: (rank,parent) words differ: model %s impl %s: %s" % (words[:24], mt["words"][:24], mt["line"][:200]))
+        elif t[0] == "HM":
+            if t[2:] == ["NONE"]:
+                cx.broke("corr:C13/hashtable#case %s" % t[1], "sequential Insert model ran out of fuel: " + mt["line"][:200]); continue
+            marr = t[3:]
+            if mt["th"] == 1:
+                nm["ht_array_exact"] += 1
+                if marr != mt["arr_idx"]:
+                    cx.broke("corr:C13/hashtable-array#case %s" % t[1], "one-thread run: key array differs: model %s impl %s: %s" % (marr[:20], mt["arr_idx"][:20], mt["line"][:200]))
+            elif not mt.get("full"):
+                nm["ht_keyset"] += 1
+                if sorted(x for x in marr if x != "-1") != sorted(x for x in mt["arr_idx"] if x != "-1"):
+                    cx.broke("corr:C13/hashtable-keys#case %s" % t[1], "stored key set differs from the model although the table is not Full: " + mt["line"][:200])
+        elif t[0] == "HC":
+            nm["ht_invariant"] += 1
+            if t[2] != "1":
+                cx.violation("hashtable-probe-invariant-broken", "after concurrent Inserts a stored key is not found at its slot by the probe sequence (ht_inv fails on the implementation's array)",
+                             {"case": mt["line"][:1000], "array": mt.get("arr", [])[:300]})
+    stats["containers_model"] = nm
